@@ -113,7 +113,7 @@ DArith(p, d) ==
 \* Words.  DWord needs statements (command substitution) and DStmts needs words.
 RECURSIVE DWord(_, _), DStmts(_, _, _), DStmt(_, _), DCmd(_, _)
 
-NWord == 34
+NWord == 35
 
 \* Parameter expansion operators with a word argument: <<spelling, valid langs, must-reject langs>>
 ExpOps == << <<":-", All, None>>, <<"-", All, None>>, <<":=", All, None>>, <<"=", All, None>>,
@@ -201,6 +201,11 @@ DWord(p, d) ==
     [] c = 28 -> Res(p + 1, nd, Tri(W(<<PE("x") @@ ("Exp" :> [k |-> "Expansion", Op |-> "@", Word |-> LW("Q")])>>)),
                      <<"${x@Q}">>, BashLike, {"posix"})
     [] c = 29 -> Res(p + 1, nd, Tri(W(<<PE("x") @@ ("Excl" :> TRUE) @@ ("Names" :> "*")>>)), <<"${!x*}">>, BashLike, {"posix"})
+    [] c = 34 ->  \* "$[1+2]" : the deprecated arithmetic form inside double quotes (lexed at a different site)
+         Res(p + 1, nd, [t |-> W(<<[k |-> "DblQuoted", Parts |-> <<[k |-> "ArithmExp", Bracket |-> TRUE, X |-> BinA("+", LW("1"), LW("2"))]>>]>>),
+                         n |-> W(<<[k |-> "DblQuoted", Parts |-> <<[k |-> "ArithmExp", X |-> BinA("+", LW("1"), LW("2"))]>>]>>),
+                         m |-> W(<<[k |-> "DblQuoted", Parts |-> <<[k |-> "ArithmExp", X |-> BinA("+", LW("1"), LW("2"))]>>]>>)],
+             <<"\"$[1+2]\"">>, BashLike, None)
     [] c = 32 ->  \* ${x/} : a replacement with empty pattern and empty replacement (an all-zero Replace node)
          Res(p + 1, nd, Tri(W(<<PE("x") @@ ("Repl" :> [k |-> "Replace"])>>)), <<"${x/}">>, Ksh, {"posix"})
     [] c = 33 ->  \* zsh subscript flags spanning a line: tree left unspecified (no verdict on it), only parsed/cut
@@ -477,7 +482,8 @@ DCmd(p, d) ==
 
 ------------------------------------------------------------------------
 \* Statements: a command plus a modifier (negation, one redirection, both).
-NMod == 4 + Len(Redirs)      \* none, negated, negated+redirect, each redirection, here-document + another redirection
+NMod == 6 + Len(Redirs)      \* none, negated, negated+redirect, each redirection, here-document + another redirection,
+                             \* and two redirections written BEFORE the command name (<<-EOF cmd ; >f cmd)
 IsBinary(t) == t.k = "BinaryCmd"
 NoModifier(t) == t.k \in {"BinaryCmd", "FuncDecl", "TimeClause", "CoprocClause"}
 
@@ -497,6 +503,11 @@ DStmt(p, d) ==
            L1(LAMBDA u : StmtOf(u) @@ ("Negated" :> TRUE) @@ ("Redirs" :> <<Redirs[1].t>>), c),
            <<"!", "<SP>">> \o c.r \o <<"<SP>">> \o Redirs[1].r,
            IF c.t.k = "LetClause" THEN {} ELSE c.v, IF c.t.k = "LetClause" THEN {} ELSE c.x)
+  ELSE IF mo \in {NMod - 3, NMod - 2} THEN   \* a redirection before the command name; only simple commands take one there
+       LET rd == IF mo = NMod - 3 THEN Redirs[7] ELSE Redirs[1]
+           unspec == c.t.k # "CallExpr" IN
+       Res(c.pos + 1, Need2(c.need, nd), L1(LAMBDA u : StmtOf(u) @@ ("Redirs" :> <<rd.t>>), c),
+           rd.r \o <<"<SP>">> \o c.r, IF unspec THEN {} ELSE c.v \cap rd.v, IF unspec THEN {} ELSE c.x \cup rd.x)
   ELSE IF mo = NMod - 1 THEN   \* cmd <<EOF >f : a here-document operator followed by another redirection
        LET h == Redirs[5]
            o == Redirs[1]
